@@ -269,6 +269,13 @@ def mon_C06(case):
         inc = int(fields.get("inc", "0")) if fields.get("inc", "-") != "-" else None
         space = free
         evicted_ids = [e[0] for e in evs]
+        # the rule's sample: eviction starts from a sample of `sample` resident keys (all of them when fewer are resident);
+        # the ids it was filled with are tapped (`ids=` of the event)
+        tapped = [t for t in st.ev.split() if t.startswith("ids=")]
+        sampled = [x for x in tapped[0][4:].split(",") if x] if tapped else None
+        want = min(cfg.get("sample", 5), len(pre["kw"]))
+        if sampled is not None and len(set(sampled)) < want:
+            yield finding("C06", st, f"eviction started from a sample of {len(set(sampled))} key(s) although {len(pre['kw'])} are resident (the rule samples {cfg.get('sample', 5)})", "C06/sample-smaller-than-rule")
         for n, (pid, pw, pest) in enumerate(pops):
             if space >= w:
                 yield finding("C06", st, f"victim {pid} taken although {space} already suffices for {w}", "C06/evicted-beyond-need")
@@ -1014,6 +1021,36 @@ def mon_B(case, pid):
                         yield finding("C13", st, f"{req[0]} issued after shutdown() had returned answered {res}", "C13/write-after-shutdown/layerB")
                     if req[0] in ("get", "getref") and res != "value -":
                         yield finding("C13", st, f"{req[0]} issued after shutdown() had returned answered {res}", "C13/read-after-shutdown/layerB")
+        if pid == "C09":
+            # a read (get / get_ref / every position of a multi-key read) that finds a value must have found an entry that was
+            # alive at the moment of ITS lookup action, whatever the clock did before or does afterwards
+            rs = getattr(mon_B, "_c09", None)
+            if rs is None or rs.get("case") is not case or st.index <= rs.get("last", -1):
+                rs = {"case": case, "req": {}, "pos": {}, "prev_pcs": {}, "prev_snap": None}
+                mon_B._c09 = rs
+            rs["last"] = st.index
+            t = st.ev.split()
+            if len(t) >= 4 and t[1] == "issue":
+                rs["req"][t[2]] = t[3:]
+                rs["pos"][t[2]] = 0
+            if len(t) >= 3 and t[1] == "client":
+                c = "c" + t[2]
+                req = rs["req"].get(t[2], [])
+                prev = rs["prev_snap"]
+                if prev is not None and req and rs["prev_pcs"].get(c) == "store.get" and req[0] in ("get", "getref", "mget"):
+                    if req[0] == "mget":
+                        ks = [int(x) for x in req[1].split(",") if x]
+                        pos = rs["pos"].get(t[2], 0)
+                        k = ks[pos] if pos < len(ks) else None
+                        rs["pos"][t[2]] = pos + 1
+                    else:
+                        k = int(req[1])
+                    if k is not None and pcs.get(c) == "pool.add":
+                        e = prev["store"].get(k)
+                        if e is not None and e["expiry"] is not None and prev["now"] > e["expiry"]:
+                            yield finding("C09", st, f"a read of key {k} found a value although the clock ({prev['now']}) was past the entry's deadline ({e['expiry']}) at the moment of the lookup", "C09/expired-value-served/layerB")
+            rs["prev_pcs"] = pcs
+            rs["prev_snap"] = snap
         if pid in ("C02", "C04"):
             # per-client bookkeeping of the request in progress
             st_state = getattr(mon_B, "_st", None)
